@@ -107,11 +107,27 @@ def _run_history(ld, kind, n, keyed, ops, tmp, shape='dict'):
     cp = None
     with warnings.catch_warnings():
         warnings.simplefilter('ignore')
-        for op in ops:
+        done_in_loop = set()
+        for oi, op in enumerate(ops):
             k = op[0]
             if k == 'read':
                 path, i = op[1], op[2]
                 try:
+                    if path in ('iterlive', 'itemslive'):
+                        # a consumer that modifies the example in the BODY of its loop, before the iterator is advanced, and then
+                        # finishes the pass: the modification is the `mut` operation that follows in the history
+                        nxt = ops[oi + 1]
+                        ex = None
+                        for j, x in enumerate(ds.items() if path == 'itemslive' else ds):
+                            if j == i:
+                                ex = x[1] if path == 'itemslive' else x
+                                handles.append(ex)
+                                outs.append(('val', content(ex)))
+                                mutate(ex, nxt[2])
+                                done_in_loop.add(oi + 1)
+                        if ex is None:
+                            raise IndexError(i)
+                        continue
                     if path == 'idx': ex = ds[i]
                     elif path == 'neg': ex = ds[i - n]
                     elif path == 'np': ex = ds[np.int64(i)]
@@ -128,7 +144,7 @@ def _run_history(ld, kind, n, keyed, ops, tmp, shape='dict'):
                 except (IndexError, KeyError):
                     outs.append(('none',))
             elif k == 'mut':
-                if op[1] < len(handles):
+                if oi not in done_in_loop and op[1] < len(handles):
                     mutate(handles[op[1]], op[2])
                 outs.append(('none',))
             elif k == 'mutorig':
@@ -226,8 +242,13 @@ def run(tier):
             x = r.random()
             if x < 0.5 or nh == 0:
                 paths = ['idx', 'neg', 'np', 'iter', 'slice', 'copy', 'listidx'] + (['key', 'items'] if keyed else [])
-                ops.append(('read', r.choice(paths), r.randrange(n)))
+                pth = r.choice(paths)
+                if r.random() < 0.2:
+                    pth = 'itemslive' if keyed and r.random() < 0.4 else 'iterlive'
+                ops.append(('read', pth, r.randrange(n)))
                 nh += 1
+                if pth in ('iterlive', 'itemslive'):
+                    ops.append(('mut', nh - 1, r.randint(1, 50)))      # carried out inside the loop body of that pass
             elif x < 0.85:
                 ops.append(('mut', r.randrange(nh), r.randint(1, 50)))
             elif kind in ('pickle', 'wu', 'copy', 'jsonfile'):          # copy mode keeps references to the caller's examples: the model says such a change IS visible
